@@ -1148,5 +1148,24 @@ def selftest():
         print(f"  {'rejected' if hit else 'ACCEPTED (bad)'}  [{prop}] {name}" + (f" -> {hit[0]['why']}" if hit else ""))
         if not hit:
             rc = 2
+    # the hang / abort plumbing: a call that never returns or kills the process is an event, and later scenarios still run
+    os.environ["VERIF_OP_TIMEOUT"] = "2"
+    wdir = C.fresh_workdir("selftest2")
+    ok_ops = [{"op": "new", "i": 1}, {"op": "add", "i": 1, "id": "a", "text": "package p; enum E {A}"}, {"op": "validate", "i": 1, "detail": "digest"}]
+    scs = [{"sid": "h0", "ops": copy.deepcopy(ok_ops)},
+           {"sid": "h1", "ops": [{"op": "new", "i": 1}, {"op": "sleep", "i": 1, "ms": 6000}, {"op": "validate", "i": 1, "detail": "digest"}]},
+           {"sid": "h2", "ops": [{"op": "new", "i": 1}, {"op": "abort", "i": 1}, {"op": "validate", "i": 1, "detail": "digest"}]},
+           {"sid": "h3", "ops": copy.deepcopy(ok_ops)}]
+    evs = C.run_harness(scs, wdir, nproc=1)
+    fl, _ = C.validate_trace(evs, wdir)
+    shutil.rmtree(wdir, ignore_errors=True)
+    os.environ.pop("VERIF_OP_TIMEOUT", None)
+    for sid, what in (("h1", "timeout"), ("h2", "abort")):
+        hit = [f for f in fl if f["sid"] == sid and f["prop"] == "C01" and what in f["why"]]
+        print(f"  {'rejected' if hit else 'ACCEPTED (bad)'}  [C01] a call that ends in {what}")
+        rc = rc if hit else 2
+    if [f for f in fl if f["sid"] in ("h0", "h3")] or not any(e["sid"] == "h3" and e["ev"] == "validate" for e in evs):
+        print("  scenarios around the hang / abort were not executed or not accepted")
+        rc = 2
     print("selftest ok: every corrupted trace was rejected at the corrupted event" if rc == 0 else "selftest FAILED")
     return rc
